@@ -264,7 +264,10 @@ func genScalar(r *core.Rand, kind string, i int) string {
 		case 2:
 			return SInt(int64(r.Uint64() % (1 << 20)))
 		}
-		return SInt(int64(r.Uint64()>>uint(r.Uint64()%63)) - 5)
+		// `int` is translated as the unbounded Int (the one idealisation of go2lean): the
+		// translator is compared with the real function where that is exact, i.e. on values
+		// whose sums, differences and single products stay inside 64 bits (|x| < 2^31)
+		return SInt(int64(r.Uint64()>>uint(33+r.Uint64()%31)) - 5)
 	case strings.HasPrefix(kind, "u"):
 		bits, _ := strconv.Atoi(kind[1:])
 		b := boundaryU(bits)
